@@ -35,12 +35,12 @@ class Check:
         if bad:
             self.violations.append(("proof", "forbidden declarations in the Coq development: " + "; ".join(bad[:5]),
                                     "grep over coq/: " + "\n".join(bad), False))
-        ok, log = core.coq_make(["all"])
+        ok, log = core.coq_make(core.props_targets(self.prop))
         if not ok:
             tail = "\n".join(log.split("\n")[-25:])
             m = re.search(r'File "\./([^"]+)", line (\d+)', log)
             where = "%s:%s" % (m.group(1), m.group(2)) if m else "?"
-            self.obligations.append(("make all", "FAILED at " + where))
+            self.obligations.append(("make (dependencies of Props/%s.v)" % self.prop, "FAILED at " + where))
             self.violations.append(("proof", "Coq development no longer builds (%s)" % where,
                                     "theorem-or-correspondence: make all (coq/) fails at %s\n%s" % (where, tail), False))
             return False
